@@ -217,12 +217,12 @@ theorem dayOf_start_sub_one (z : Int) : dayOf (z * usPerDay - oneUs) = z - 1 := 
 
 /-- The loop of `find` returns `acc` followed by a prefix of the complete newest-first
     collection; the prefix is everything unless the limit stopped the walk. -/
-theorem walk_spec (j : Journal) (a u : Int) (lim : Option Int) (s : String) (cur : Int)
+theorem walk_spec (j : Journal) (a u lo : Int) (lim : Option Int) (s : String) (cur : Int)
     (acc : List Entry) :
-    ∃ rest, walk j a u lim s cur acc = acc ++ rest ∧
-      rest <+: collect j a u s (dayOf a) (dayOf cur) ∧
-      (wants lim (acc ++ rest) = true → rest = collect j a u s (dayOf a) (dayOf cur)) := by
-  induction cur, acc using walk.induct j a u lim s with
+    ∃ rest, walk j a u lo lim s cur acc = acc ++ rest ∧
+      rest <+: collect j a u s lo (dayOf cur) ∧
+      (wants lim (acc ++ rest) = true → rest = collect j a u s lo (dayOf cur)) := by
+  induction cur, acc using walk.induct j a u lo lim s with
   | case1 cur acc hc c hy hm acc' ih =>
     -- year and month directories exist: visit the day, step back one day
     obtain ⟨rest, h1, h2, h3⟩ := ih
@@ -259,8 +259,8 @@ theorem walk_spec (j : Journal) (a u : Int) (lim : Option Int) (s : String) (cur
     have hv := civil_valid (dayOf cur)
     rw [validDate_iff] at hv
     rw [← hcd] at hb hv
-    have hskip : collect j a u s (dayOf a) (dayOf cur)
-        = collect j a u s (dayOf a) (daysFromCivil c.year c.month 1 - 1) := by
+    have hskip : collect j a u s lo (dayOf cur)
+        = collect j a u s lo (daysFromCivil c.year c.month 1 - 1) := by
       apply collect_skip _ _ _ (by show _ - 1 ≤ dayOf cur; have := hb.2.2.1; omega) rfl
       intro z hz1 hz2
       have := civil_month_of_between hv.1 hv.2.1 (z := z) (by show daysFromCivil c.year c.month 1 ≤ z; omega)
@@ -282,8 +282,8 @@ theorem walk_spec (j : Journal) (a u : Int) (lim : Option Int) (s : String) (cur
     rw [dayOf_start_sub_one] at h2 h3
     have hb := civil_bounds (dayOf cur)
     rw [← hcd] at hb
-    have hskip : collect j a u s (dayOf a) (dayOf cur)
-        = collect j a u s (dayOf a) (daysFromCivil c.year 1 1 - 1) := by
+    have hskip : collect j a u s lo (dayOf cur)
+        = collect j a u s lo (daysFromCivil c.year 1 1 - 1) := by
       apply collect_skip _ _ _ (by show _ - 1 ≤ dayOf cur; have := hb.1; omega) rfl
       intro z hz1 hz2
       have := civil_year_of_between (z := z) (y := c.year) (by omega)
@@ -302,14 +302,14 @@ theorem walk_spec (j : Journal) (a u : Int) (lim : Option Int) (s : String) (cur
     refine ⟨[], by simp, List.nil_prefix, ?_⟩
     intro hw
     rw [List.append_nil] at hw
-    have : dayOf cur < dayOf a := by
-      by_cases h : dayOf a ≤ dayOf cur
+    have : dayOf cur < lo := by
+      by_cases h : lo ≤ dayOf cur
       · exact absurd ⟨hw, h⟩ hc
       · omega
     rw [collect_lt this]
 
 theorem walk_of_not_wants {j : Journal} {a u : Int} {lim : Option Int} {s : String} {cur : Int}
-    {acc : List Entry} (h : wants lim acc = false) : walk j a u lim s cur acc = acc := by
+    {acc : List Entry} {lo : Int} (h : wants lim acc = false) : walk j a u lo lim s cur acc = acc := by
   rw [walk, if_neg]
   intro hc; rw [h] at hc; exact Bool.noConfusion hc.1
 
@@ -360,10 +360,10 @@ theorem take_of_prefix {l C : List Entry} (hp : l <+: C) {n : Nat} (hn : n ≤ l
 
 /-- `entries[:n]` of the walk is the first `n` of the complete collection -/
 theorem pyFirst_walk (j : Journal) (a u : Int) (n : Int) (s : String) :
-    pyFirst (walk j a u (some n) s u []) n
+    pyFirst (walk j a u (dayOf a) (some n) s u []) n
       = (collect j a u s (dayOf a) (dayOf u)).take n.toNat := by
   by_cases hn : 0 < n
-  · obtain ⟨rest, h1, h2, h3⟩ := walk_spec j a u (some n) s u []
+  · obtain ⟨rest, h1, h2, h3⟩ := walk_spec j a u (dayOf a) (some n) s u []
     rw [h1, List.nil_append]
     rw [List.nil_append] at h3
     unfold pyFirst
@@ -378,10 +378,10 @@ theorem pyFirst_walk (j : Journal) (a u : Int) (n : Int) (s : String) :
 
 /-- `entries[-n:]` of the walk is a sublist of the complete collection, of length at most `n` -/
 theorem pyLast_walk (j : Journal) (a u : Int) (n : Int) (s : String) :
-    (pyLast (walk j a u (some n) s u []) n).Sublist (collect j a u s (dayOf a) (dayOf u)) ∧
-    (pyLast (walk j a u (some n) s u []) n).length ≤ n.toNat := by
+    (pyLast (walk j a u (dayOf a) (some n) s u []) n).Sublist (collect j a u s (dayOf a) (dayOf u)) ∧
+    (pyLast (walk j a u (dayOf a) (some n) s u []) n).length ≤ n.toNat := by
   by_cases hn : 0 < n
-  · obtain ⟨rest, h1, h2, _⟩ := walk_spec j a u (some n) s u []
+  · obtain ⟨rest, h1, h2, _⟩ := walk_spec j a u (dayOf a) (some n) s u []
     rw [h1, List.nil_append]
     unfold pyLast
     rw [if_pos hn]
@@ -391,9 +391,16 @@ theorem pyLast_walk (j : Journal) (a u : Int) (n : Int) (s : String) :
     rw [walk_of_not_wants this]
     simp [pyLast]
 
+@[simp] theorem Bound.wall_toUTC (b : Bound) : b.toUTC.wall = b.instant := by
+  simp [Bound.wall, Bound.toUTC]
+
+@[simp] theorem Bound.instant_toUTC (b : Bound) : b.toUTC.instant = b.instant := rfl
+
+@[simp] theorem Bound.wall_zero (t : Int) : (⟨t, 0⟩ : Bound).wall = t := by simp [Bound.wall]
+
 theorem walk_none (j : Journal) (a u : Int) (s : String) :
-    walk j a u none s u [] = collect j a u s (dayOf a) (dayOf u) := by
-  obtain ⟨rest, h1, _, h3⟩ := walk_spec j a u none s u []
+    walk j a u (dayOf a) none s u [] = collect j a u s (dayOf a) (dayOf u) := by
+  obtain ⟨rest, h1, _, h3⟩ := walk_spec j a u (dayOf a) none s u []
   rw [h1, List.nil_append]
   exact h3 (by simp [wants])
 
